@@ -25,6 +25,8 @@ TRUSTED = [
     "v2.2 -> v2.3/v2.4 upgrade: Frame._upgrade_frame / the generic Frame._to_other (fields copied by name, optional ones if set) is modelled "
     "(Model.Id3Frame.upgrade_frame / to_other, C12_v22_upgrade_keeps_fields) with the identity test of the spec lists (`is`) modelled as equality of field "
     "names; the classes overriding _to_other (PIC, LNK, RVA), ID3Tags._add and the update_to_v24 translation are not modelled (direct oracle only)",
+    "KeyEventSpec (ETCO / ETC): the event type is modelled as the UNSIGNED byte $00..$FF of the ID3v2 event timing codes (struct '>BI'); generated "
+    "event types cover 0..255 and time stamps the 32-bit extremes; hand-written ETCO bytes are loaded in v2.2 / v2.3 / v2.4 (keyevent_oracle)",
     "CHAP/CTOC nesting: /repo bounds ID3FramesSpec.read at 16 levels (header._nesting; a frame that would open level 17 is dropped as junk); the model's "
     "depth-indexed reader mirrors it (tag_read O = junk, the implementation is tag_read (S nesting_limit)), tied by corr_nesting on CHAP towers of "
     "1..40 levels; generated values nest at most 3 levels; a frame tree deeper than 16 levels does not survive loading (by design of the bound)",
@@ -55,7 +57,7 @@ RULE = ("per frame class of the live registry x v2.4/v2.3 x text encoding 0-3: f
         "(astral/NUL-adjacent text, 0xFF/0x00 runs, integer lattices incl. mixed 2/3-byte RVA magnitudes, nested CHAP/CTOC, multi-values, empty descriptions); "
         "correspondence compares bytes/values/exception class of implementation and extracted model; direct oracle compares reloaded type and fields with the "
         "originals and across input framings; multi-frame tags: 2-7 generated frames (CHAP/CTOC with sub-frames first / between / last, payloads with FF 00, FF E0, trailing FF, "
-        "latin-1 y-diaeresis, UTF-16 BOMs), field bytes from the extracted model, framing by the harness, every frame at every position compared with the generated values and the plain tag; "
+        "latin-1 y-diaeresis, UTF-16 BOMs; plus tags with one frame of 65535..200000 bytes and tags with 16..40 sibling CHAP/CTOC frames), field bytes from the extracted model, framing by the harness, every frame at every position compared with the generated values and the plain tag; "
         "v2.2 upgrade: every class of Frames_2_2 x encoding 0/1 x number of optional fields set (0..all) x seeds, hand-built v2.2 tag, loader and Frame(other). non-trivial = a frame with at least one non-default field was encoded and decoded; distinct by (class, version, encoding, framing, value seed)")
 
 NOT_BY_THEOREM = ["zlib Huffman streams", "float conversion of gains/peaks", "ID3TimeStamp parsing", "v2.2 three-letter framing (6-byte frame headers)", "ID3Tags._write ordering",
@@ -177,7 +179,9 @@ def gen_value(rng, spec, enc, ver, S, I, depth=0):
     if n == "SynchronizedTextSpec":
         return [(gen_text(rng, enc, lo, 4), lattice_int(rng, (1 << 32) - 1)) for _ in range(rng.randint(1, 3))]
     if n == "KeyEventSpec":
-        return [(rng.choice([-128, -1, 0, 1, 127, rng.randint(-128, 127)]), lattice_int(rng, (1 << 32) - 1)) for _ in range(rng.randint(1, 3))]
+        # event types are the byte values $00..$FF of the ID3v2 event timing codes table ($FD audio end, $FE audio file ends, $E0-$EF user events)
+        return [(rng.choice([0, 1, 2, 0x16, 127, 128, 0xE0, 0xEF, 0xFD, 0xFE, 0xFF, rng.randint(0, 255)]),
+                 rng.choice([0, 1, 0x7FFFFFFF, 0x80000000, 0xFFFFFFFE, 0xFFFFFFFF, lattice_int(rng, (1 << 32) - 1)])) for _ in range(rng.randint(1, 3))]
     if n == "VolumeAdjustmentsSpec":
         fs = sorted(set(rng.choice([0, 1, 2, 255, 256, 65535, rng.randint(0, 65535)]) for _ in range(rng.randint(1, 4))))
         return [(f / 2.0, rng.choice([-32768, -1, 0, 1, 32767, rng.randint(-32768, 32767)]) / 512.0) for f in fs]
@@ -449,9 +453,13 @@ def oracle_case(ctx, cls_name, ver, enc, seed, framings=(), optional=None):
     ctx.case(("D", cls_name, ver, enc, seed, optional), {"frame": cls_name, "version": ver, "encoding": enc, "seed": seed, "repr": repr(fr)[:160]} if ctx.evaluations % 997 == 0 else None)
     if diffs:
         ok = False
+        keyev_high = any(sname(s) == "KeyEventSpec" and any(t >= 128 for t, _ in getattr(fr, s.name)) for s in fr._framespec)
         if rva_mixed and any("adjustments" in d for d in diffs):
             what = "RVASpec.write: values of different byte widths are padded on the wrong side"
             data = dict(data, defect="rva-mixed-width")
+        elif keyev_high and any("raised" in d or d.startswith("events") for d in diffs):
+            what = KEYEV_WHAT
+            data = dict(data, defect="keyevent-signed-type")
         else:
             what = "%s saved as v2.%d does not reload with equal fields (%s)" % (cls_name, ver, diffs[0].split(":")[0])
         ctx.violation("oracle", what, dict(data, diffs=diffs[:4], frame_repr=repr(fr)[:300]))
@@ -498,6 +506,40 @@ def oracle_case(ctx, cls_name, ver, enc, seed, framings=(), optional=None):
                 d2["defect"] = "nested-double-unsynch"
             ctx.violation("oracle", "%s framing of a frame does not decode to the saved field values" % framing, d2)
     return ok
+
+
+KEYEV_WHAT = "KeyEventSpec: a key event of type $80..$FF (valid ID3v2 event codes, e.g. $FD audio end) cannot be saved or does not reload as the same type (signed byte)"
+
+
+def keyevent_wire_case(ctx, ver, fmt, events):
+    """hand-written ETCO / ETC bytes (format byte, then type byte + 32-bit time per event): the loaded events are the stored ones"""
+    mutagen, I, S, T, F, U = M()
+    body = bytes([fmt]) + b"".join(bytes([t]) + tm.to_bytes(4, "big") for t, tm in events)
+    name = "ETC" if ver == 2 else "ETCO"
+    try:
+        got = list(I.ID3(io.BytesIO(tag_of(ver, name, body)), translate=False, load_v1=False).values())
+        d = [] if len(got) == 1 and type(got[0]).__name__ == "ETCO" and got[0].format == fmt and [tuple(e) for e in got[0].events] == list(events) else \
+            ["events: %r -> %r" % (list(events), [tuple(e) for e in got[0].events] if len(got) == 1 else "%d frames" % len(got))]
+    except Exception as e:
+        d = ["load raised %s: %s" % (type(e).__name__, str(e)[:80])]
+    ctx.oracle_cases += 1
+    ctx.count("oracle:keyevent-wire")
+    ctx.case(("DK", ver, fmt, tuple(events)))
+    if d:
+        high = any(t >= 128 for t, _ in events)
+        ctx.violation("oracle", KEYEV_WHAT if high else "hand-written ETCO bytes do not load as the stored events",
+                      {"runner": "c12.keyevent", "version": ver, "format": fmt, "events": [list(e) for e in events], "diffs": d, **({"defect": "keyevent-signed-type"} if high else {})})
+    return not d
+
+
+def keyevent_oracle(ctx, n):
+    types = [0, 1, 0x16, 0x7F, 0x80, 0xE0, 0xEF, 0xFD, 0xFE, 0xFF]
+    times = [0, 1, 0x7FFFFFFF, 0x80000000, 0xFFFFFFFF]
+    for ver in (4, 3, 2):
+        for t in types:
+            keyevent_wire_case(ctx, ver, 2, [(t, ctx.rng.choice(times))])
+        for _ in range(n):
+            keyevent_wire_case(ctx, ver, ctx.rng.choice([1, 2]), [(ctx.rng.randrange(256), ctx.rng.choice(times + [ctx.rng.getrandbits(32)])) for _ in range(ctx.rng.randint(1, 4))])
 
 
 def registry():
@@ -603,15 +645,27 @@ def make_hot(rng, fr, enc):
     return fr
 
 
-def gen_tagset(seed, ver):
-    """top-level frames of one tag in storage order: [(frame, role)] with role in chapter / hot / plain"""
+def big_payload(rng, n):
+    block = bytes(rng.choice([0xFF, 0xFF, 0, 0xE0, rng.randrange(256)]) for _ in range(1009))
+    return (block * (n // len(block) + 1))[:n - 1] + b"\x07"
+
+
+def gen_tagset(seed, ver, big=0, many=0):
+    """top-level frames of one tag in storage order: [(frame, role)] with role in chapter / hot / plain
+    (big: one binary frame, not the last, carries a payload of `big` bytes; many: that many sibling CHAP/CTOC frames)"""
     mutagen, I, S, T, F, U = M()
-    rng = random.Random("tagset/%d/%d" % (ver, seed))
+    rng = random.Random("tagset/%d/%d/%d/%d" % (ver, seed, big, many) if big or many else "tagset/%d/%d" % (ver, seed))
     table = I.Frames if ver >= 3 else I.Frames_2_2
     hot = HOT34 if ver >= 3 else HOT22
     names = sorted(n for n in table if n not in ("CHAP", "CTOC"))
     pattern = rng.choice(["CN", "CNN", "NCN", "NNC", "CNCN", "NCNCN", "CCN", "NCC", "NN", "NNN"]) if ver >= 3 else rng.choice(["NN", "NNN", "NNNN", "N"])
     pattern += "N" * rng.randint(0, 2)
+    if many and ver >= 3:
+        pattern = "N" + "".join("C" + ("N" if i % 9 == 8 else "") for i in range(many)) + "N"
+    bigpos = -1
+    if big:
+        pattern = "NNN" + "N" * rng.randint(0, 1)
+        bigpos = rng.choice([0, 1])
     out, used, keys = [], set(), set()
     for pos, kind in enumerate(pattern):
         for attempt in range(20):
@@ -619,17 +673,21 @@ def gen_tagset(seed, ver):
             if kind == "C":
                 name = rng.choice(["CHAP", "CHAP", "CTOC"])
                 fr = gen_frame(rng, table[name], wenc, ver)
-                fr.element_id = "%c%s" % (0x61 + pos, fr.element_id)
+                fr.element_id = "%02d%s" % (pos, fr.element_id)
                 role = "chapter"
             else:
                 is_hot = pos == len(pattern) - 1 or pattern[pos - 1:pos] == "C" or rng.random() < 0.6
                 name = rng.choice(hot) if is_hot or rng.random() < 0.3 else rng.choice(names)
+                if pos == bigpos:
+                    name = rng.choice(["GEOB", "APIC", "PRIV", "UFID"] if ver >= 3 else ["GEO", "PIC", "UFI"])
                 if name in used or name not in table:
                     continue
                 try:
                     fr = gen_frame(rng, table[name], wenc if any(sname(s) == "EncodingSpec" for s in table[name]._framespec) else 0, max(ver, 3))
                     if is_hot:
                         fr = make_hot(rng, fr, wenc)
+                    if pos == bigpos:
+                        fr.data = big_payload(rng, big)
                 except Exception:
                     continue
                 role = "hot" if is_hot else "plain"
@@ -667,6 +725,10 @@ def node_of(ctx, fr, ver):
         subs = [node_of(ctx, s, ver) for s in getattr(fr, specs[-1].name).values()]
         bare = cls(**{s.name: getattr(fr, s.name) for s in specs[:-1]})
         return (cls.__name__.encode("ascii"), field_bytes(ctx, bare, ver), subs)
+    if specs and sname(specs[-1]) == "BinaryDataSpec" and not any(hasattr(fr, s.name) for s in cls._optionalspec) and len(getattr(fr, specs[-1].name)) > 4096:
+        # a large trailing binary field is raw bytes: keep the model call small
+        bare = cls(**dict({s.name: getattr(fr, s.name) for s in specs[:-1]}, **{specs[-1].name: b""}))
+        return (cls.__name__.encode("ascii"), field_bytes(ctx, bare, ver) + getattr(fr, specs[-1].name), [])
     return (cls.__name__.encode("ascii"), field_bytes(ctx, fr, ver), [])
 
 
@@ -754,12 +816,12 @@ def where(roles, i):
     return "a frame of a tag without CHAP/CTOC frames"
 
 
-def tagset_case(ctx, ver, seed, framings=None):
+def tagset_case(ctx, ver, seed, framings=None, big=0, many=0):
     """True if every framing of the generated frame set loads as generated; records a violation otherwise"""
     mutagen, I, S, T, F, U = M()
-    data = {"runner": "c12.tagset", "version": ver, "seed": seed}
+    data = {"runner": "c12.tagset", "version": ver, "seed": seed, "big": big, "many": many}
     try:
-        frames = gen_tagset(seed, ver)
+        frames = gen_tagset(seed, ver, big, many)
         nodes = [node_of(ctx, fr, ver) for fr, want, role in frames]
     except Exception as e:
         ctx.disagree("c12.generator", "cannot generate a frame set: %s %s" % (type(e).__name__, str(e)[:120]), data)
@@ -811,16 +873,37 @@ def tagset_case(ctx, ver, seed, framings=None):
         if bad:
             ok = False
             i, diffs = bad
-            ctx.violation("oracle", "%s framing of a hand-built multi-frame tag: %s does not decode to the generated field values" % (framing, where(roles, i)),
+            kind = " [tag with a frame of 64 KiB or more]" if big else " [tag with 16..40 sibling CHAP/CTOC frames]" if many else ""
+            what = "%s framing of a hand-built multi-frame tag: %s does not decode to the generated field values%s" % (framing, where(roles, i), kind)
+            extra = {}
+            if any(sname(s) == "KeyEventSpec" and any(t >= 128 for t, _ in getattr(wants[i], s.name)) for s in type(wants[i])._framespec) and any("events" in x for x in diffs):
+                what, extra = KEYEV_WHAT, {"defect": "keyevent-signed-type"}
+            ctx.violation("oracle", what,
                           dict(data, framing=framing, index=i, frame=data["order"][i], diffs=diffs[:4], tag=tagb.hex() if len(tagb) <= 600 else tagb[:600].hex() + "...",
-                               frame_repr=repr(wants[i])[:300]))
+                               frame_repr=repr(wants[i])[:300], **extra))
     return ok
+
+
+BIG_SIZES = [65535, 65536, 65537, 70000, 131071, 131072, 200000, 65279, 65280, 66000]
+MANY_CHAPTERS = [17, 18, 16, 25, 40, 33]
 
 
 def tagset_oracle(ctx, n4, n3, n2):
     for ver, n in ((4, n4), (3, n3), (2, n2)):
         for _ in range(n):
             tagset_case(ctx, ver, ctx.rng.getrandbits(40))
+    # frames of 64 KiB and more (v2.2: the 24-bit size field needs its high byte; v2.3: 32-bit; v2.4: syncsafe), a few framings each
+    nbig = 10 if ctx.thorough else 4
+    for i, size in enumerate(BIG_SIZES[:nbig]):
+        tagset_case(ctx, 2, ctx.rng.getrandbits(40), big=size)
+        ver = (3, 4)[i % 2]
+        fr = TAG_FRAMINGS[ver][1:]
+        tagset_case(ctx, ver, ctx.rng.getrandbits(40), framings=[fr[i % len(fr)], fr[(i + 3) % len(fr)]], big=size)
+    # more than 16 sibling CHAP/CTOC frames in one tag (the nesting bound is about depth, not about the number of chapters)
+    for i, cnt in enumerate(MANY_CHAPTERS[:6 if ctx.thorough else 3]):
+        for ver in (4, 3):
+            fr = TAG_FRAMINGS[ver][1:]
+            tagset_case(ctx, ver, ctx.rng.getrandbits(40), framings=[fr[i % len(fr)], fr[(i + 2) % len(fr)]], many=cnt)
 
 
 # ------------------------------------------------------------------------------------------------ (U) v2.2 upgrade / Frame(other)
@@ -898,6 +981,9 @@ def upgrade_case(ctx, name, enc, seed, nopt):
     ctx.oracle_cases += 1
     ctx.count("upgrade:v2.2 optional fields set=%d" % nset)
     ctx.case(("U", name, enc, seed, nopt))
+    if bad and any(sname(s) == "KeyEventSpec" and any(t >= 128 for t, _ in getattr(fr, s.name)) for s in cls._framespec) and all(any("events" in x for x in d) for _, d in bad):
+        ctx.violation("oracle", KEYEV_WHAT, dict(data, defect="keyevent-signed-type", path=bad[0][0], diffs=bad[0][1][:4], payload=payload.hex()[:400], frame_repr=repr(fr)[:300]))
+        return False
     for path, d in bad[:2]:
         ctx.violation("oracle", "v2.2 frame upgraded to its v2.3/v2.4 class (%s) does not keep the generated field values%s"
                       % (re.sub(r" v2\.\d \w+ frame", " v2.3/v2.4 frame", path), " (optional fields)" if any(x.startswith("fields set") for x in d) else ""),
@@ -1267,6 +1353,31 @@ def corr_nesting(ctx):
                     ctx.violation("oracle", "CHAP frames nested beyond the bound make loading raise", {"runner": "c12.nesting", "version": ver, "levels": levels, "loaded": depth})
 
 
+def corr_siblings_and_big(ctx):
+    """read_frames on 20 sibling CHAP frames (the nesting bound is per depth, not per tag) and on a v2.2 frame of more than 64 KiB"""
+    mutagen, I, S, T, F, U = M()
+    cases = [(ver, b"".join(nested_chaps(1 + (i % 2), ver, i % 3 == 0) for i in range(20)) + frame_tail(ver), "20 sibling CHAP frames") for ver in (4, 3)]
+    big = bytes(ctx.rng.choice([0xFF, 0, 0xE0, ctx.rng.randrange(256)]) for _ in range(211)) * 311       # 65621 bytes
+    body = b"\x00a\x00b\x00c\x00" + big
+    cases.append((2, b"GEO" + struct.pack(">L", len(body))[1:] + body + b"TT2\x00\x00\x05\x00tail", "a v2.2 frame of %d bytes" % len(body)))
+    for ver, blob, label in cases:
+        h = header(ver)
+        try:
+            frames, unknown, rest = T.read_frames(h, blob, h.known_frames)
+            ir = "ok l(%s) l(%s) %s" % (";".join("l(%s;%s)" % (hx(type(f).__name__.encode()), frame_to_model(f, max(ver, 3), True)) for f in frames),
+                                        ";".join(hx(u) for u in unknown), hx(rest))
+        except Exception as e:
+            ir = "raise " + exc_name(e)
+        mr = ctx.model.call("c12_tag", zs(ver), "0", hx(blob))
+        ctx.corr_cases += 1
+        ctx.count("corr:siblings-and-big")
+        ctx.case(("RS", ver, label))
+        if ir != mr:
+            k = next((j for j in range(min(len(ir), len(mr))) if ir[j] != mr[j]), min(len(ir), len(mr)))
+            ctx.disagree("c12.read_frames", "v2.%d read_frames of %s: impl=...%s model=...%s (lengths %d / %d)" % (ver, label, ir[max(0, k - 40):k + 80], mr[max(0, k - 40):k + 80], len(ir), len(mr)),
+                         {"version": ver, "case": label})
+
+
 def frame_tail(ver):
     body = b"\x00tail"
     return b"TALB" + (syncsafe(len(body)) if ver == 4 else struct.pack(">L", len(body))) + b"\x00\x00" + body
@@ -1299,6 +1410,7 @@ def correspondence(ctx, reps, tags):
     corr_misc(ctx, 40 * reps)
     corr_upgrade(ctx, 2 * reps)
     corr_nesting(ctx)
+    corr_siblings_and_big(ctx)
 
 
 # ------------------------------------------------------------------------------------------------ (V) vm_compute shard
@@ -1391,12 +1503,14 @@ def run(ctx):
         direct_oracle(ctx, 12, 4)
         tagset_oracle(ctx, 1500, 800, 400)
         upgrade_oracle(ctx, 12)
+        keyevent_oracle(ctx, 200)
         vm_crosscheck(ctx, 60)
     else:
         correspondence(ctx, 1, 45)
         direct_oracle(ctx, 3, 1)
         tagset_oracle(ctx, 120, 70, 40)
         upgrade_oracle(ctx, 3)
+        keyevent_oracle(ctx, 10)
         vm_crosscheck(ctx, 30)
 
 
@@ -1412,6 +1526,7 @@ def search(ctx, broken):
     order = list(dict.fromkeys(named)) + [n for n in f34 + f22 if n not in named]
     tagset_oracle(ctx, 400, 250, 150)
     upgrade_oracle(ctx, 8)
+    keyevent_oracle(ctx, 60)
     for name in order:
         cls = I.Frames.get(name) or I.Frames_2_2[name]
         for ver in (4, 3):
@@ -1427,12 +1542,14 @@ def search(ctx, broken):
 
 def replay(ctx, payload):
     d = payload.get("data", {})
+    if payload.get("kind") == "failing-input" and d.get("runner") == "c12.keyevent":
+        return not keyevent_wire_case(ctx, d["version"], d["format"], [tuple(e) for e in d["events"]])
     if payload.get("kind") == "failing-input" and d.get("runner") == "c12.upgrade":
         return not upgrade_case(ctx, d["frame"], d["encoding"], d["seed"], d["optional"])
     if payload.get("kind") == "failing-input" and d.get("runner") == "c12.copy":
         return not copy_case(ctx, d["frame"], d["encoding"], d["seed"], d["optional"])
     if payload.get("kind") == "failing-input" and d.get("runner") == "c12.tagset":
-        return not tagset_case(ctx, d["version"], d["seed"], (d["framing"],))
+        return not tagset_case(ctx, d["version"], d["seed"], (d["framing"],), big=d.get("big", 0), many=d.get("many", 0))
     if payload.get("kind") != "failing-input" or "frame" not in d or "seed" not in d:
         run(ctx)
         return bool(ctx.violations or ctx.disagreements)
